@@ -24,32 +24,36 @@ JRL = 'rate_limit::JoinRateLimiter'
 def run(ctx):
     prog = ctx.prog
     prog.adt(BUCKET)
-    tc = prog.body(BUCKET + '::try_consume')
+    # try_consume with its private helpers (window roll-over, refill ..) spliced in
+    tc = prog.inl(BUCKET + '::try_consume')
     ctx.touch(tc, len(tc.calls()))
+    TC_ROOT = BUCKET + '::try_consume'
+
+    def in_tc(b):
+        return b.root == TC_ROOT or prog.owner_roots(b.root, stop={TC_ROOT}) == {TC_ROOT}
 
     # ---- 1. admit gate
     conds_needed = {'tokens': False, 'window': False}
-    writes_tok = [(b, bi, k, th) for (b, bi, k, th) in L.field_writes(prog, BUCKET, 'tokens')]
-    writes_win = [(b, bi, k, th) for (b, bi, k, th) in L.field_writes(prog, BUCKET, 'requests_in_window')]
+    # writers elsewhere in the crate (closed world); the writes of try_consume itself are read off its inlined body
+    for fld, tagname in (('tokens', 'tokens'), ('requests_in_window', 'window')):
+        for b, bi, k, th in L.field_writes(prog, BUCKET, fld):
+            if k == 'aggregate':
+                if fld == 'tokens':
+                    ctx.ob('WHO-WRITES', 'tokens:construct:%s' % b.id, b.id == BUCKET + '::new' or prog.owner_roots(b.root, stop={BUCKET + '::new'}) == {BUCKET + '::new'},
+                           b.where(th.get('ln')), 'Bucket constructed in %s' % b.id)
+                continue
+            if not in_tc(b):
+                ctx.ob('WHO-WRITES', '%s:writer:%s' % (tagname, b.id), False, b.where(), 'a second writer of Bucket.%s' % fld)
+    writes_tok = [(tc, bi, k, th) for (bi, k, th) in L.body_field_writes(tc, BUCKET, 'tokens') if k != 'aggregate']
+    writes_win = [(tc, bi, k, th) for (bi, k, th) in L.body_field_writes(tc, BUCKET, 'requests_in_window') if k != 'aggregate']
     dec = []
     inc = []
     for b, bi, k, th in writes_tok:
-        if k == 'aggregate':
-            ctx.ob('WHO-WRITES', 'tokens:construct:%s' % b.id, b.id == BUCKET + '::new', b.where(th.get('ln')), 'Bucket constructed in %s' % b.id)
-            continue
-        if b.id != tc.id:
-            ctx.ob('WHO-WRITES', 'tokens:writer:%s' % b.id, False, b.where(), 'a second writer of Bucket.tokens')
-            continue
         if k == 'assign':
             e = F.Expr.of_rvalue(b, th['r'], 20).strip()
             if e.k == 'bin' and e.a == 'Sub':
                 dec.append((bi, th))
     for b, bi, k, th in writes_win:
-        if k == 'aggregate':
-            continue
-        if b.id != tc.id:
-            ctx.ob('WHO-WRITES', 'window:writer:%s' % b.id, False, b.where(), 'a second writer of Bucket.requests_in_window')
-            continue
         if k == 'assign':
             e = F.Expr.of_rvalue(b, th['r'], 20).strip()
             if e.k == 'bin' and e.a == 'Add':
@@ -100,7 +104,7 @@ def run(ctx):
     ctx.ob('ADMIT-GATE', 'try_consume:refill-capped', capped, tc.where(), 'tokens = min(tokens, burst_size) dominates the budget test: %s' % capped)
 
     # ---- 2. table: JoinRateLimiter::new wiring
-    nb = prog.body(JRL + '::new')
+    nb = prog.inl(JRL + '::new', keep=r'Engine::<.*>::new$|Bucket::new$')
     ctx.touch(nb)
     want = {'per_subnet_64': ('max_joins_per_64_per_hour', 3600), 'per_subnet_48': ('max_joins_per_48_per_hour', 3600),
             'per_subnet_24': ('max_joins_per_24_per_hour', 3600), 'global': ('max_global_joins_per_minute', 60)}
@@ -125,11 +129,7 @@ def run(ctx):
                 w = fm.get('window')
                 mr = fm.get('max_requests')
                 bs = fm.get('burst_size')
-                wv = None
-                if w is not None:
-                    m = w.mentions_call(r'Duration::from_secs$')
-                    if m is not None:
-                        wv = m.b[0].const_value()
+                wv = L.duration_secs(prog, w) if w is not None else None
                 okw = (wv == win and mr is not None and mr.strip().show().endswith('.' + cfgf))
                 if fld != 'global':
                     okw = okw and bs is not None and bs.strip().show().endswith('.' + cfgf)
@@ -149,7 +149,7 @@ def run(ctx):
                 ctx.ob('TABLE', 'defaults', okd, db.where(s.get('ln')), 'default per-hour join limits /64,/48,/24 = %s,%s,%s (documented 1,5,3)' % (
                     vals.get('max_joins_per_64_per_hour'), vals.get('max_joins_per_48_per_hour'), vals.get('max_joins_per_24_per_hour')))
     # use site: limiter field <- extractor, and Ok requires every limiter on the arm
-    cj = prog.body(JRL + '::check_join_allowed')
+    cj = prog.inl(JRL + '::check_join_allowed', keep=r'Engine::<.*>::try_consume|::extract_ipv')
     ctx.touch(cj, len(cj.calls()))
     pairs = {'per_subnet_64': 'extract_ipv6_subnet_64', 'per_subnet_48': 'extract_ipv6_subnet_48', 'per_subnet_24': 'extract_ipv4_subnet_24'}
     tcalls = cj.calls(r'Engine::<.*>::try_consume_key$')
